@@ -26,6 +26,9 @@ class StdVector(Plugin):
         return m.group(1).strip() if m else None
 
     def type_for(self, name, unit):
+        ie = self.iter_elem(name)
+        if ie is not None and not canon_type(name).startswith('std::vector<'):
+            return unit.ctype(ie) + ' *'
         el = self.elem_of(name)
         if el is None: return None
         ect = unit.ctype(el)
@@ -41,6 +44,17 @@ class StdVector(Plugin):
 
     def is_model_type(self, ct):
         return ct.replace('const ', '').strip().startswith('struct v_vec_')
+
+    # ---- iterators: T* (forward) / T* one past the element (reverse) ----
+    IT_RE = re.compile(r'__normal_iterator<(?:const )?(.*?) \*(?:const)?, *std::vector<')
+    def iter_elem(self, qt):
+        m = self.IT_RE.search(qt.replace('std::__cxx11::', 'std::'))
+        return m.group(1).strip() if m else None
+    def node_iter(self, node):
+        t = node.get('type', {})
+        for qt in (t.get('desugaredQualType'), t.get('qualType')):
+            if qt and self.iter_elem(qt): return ('reverse' if 'reverse_iterator<' in qt else 'forward'), self.iter_elem(qt)
+        return None
 
     def _recv(self, unit, base, is_arrow):
         b = unit.expr(base)
@@ -64,6 +78,8 @@ class StdVector(Plugin):
         a = [unit.expr(x) for x in args]
         if name in ('size', 'empty', 'data', 'resize', 'reserve', 'clear', 'pop_back'):
             return '%s_%s(%s)' % (cn, name, ', '.join([recv] + a))
+        if name in ('begin', 'cbegin', 'rend', 'crend'): return '(%s->data)' % recv
+        if name in ('end', 'cend', 'rbegin', 'crbegin'): return '(%s->data + %s->size)' % (recv, recv)
         if name in ('push_back', 'emplace_back') and len(a) == 1:
             a0 = a[0]
             if a0.startswith('(*') and a0.endswith(')') and self.decls.get(cn, '').startswith('struct '): pass
@@ -76,11 +92,49 @@ class StdVector(Plugin):
         raise Unsupported('std::vector::%s (in %s)' % (name, unit.cur))
 
     def operator_call(self, unit, n, rd, args):
-        if rd.get('name') == 'operator[]' and args:
+        op = rd.get('name')
+        if op == 'operator[]' and args:
             cn = self._cn(unit, args[0])
             if cn is None: return None
             return '(*%s_index(%s, %s))' % (cn, unit.addr_of(args[0]), unit.expr(args[1]))
+        it = self.node_iter(args[0]) if args else None
+        if it:
+            kind = it[0]; x = unit.expr(args[0])
+            if op in ('operator!=', 'operator==') and len(args) == 2: return '(%s %s %s)' % (x, op[-2:], unit.expr(args[1]))
+            if op == 'operator++': return ('(--%s)' if kind == 'reverse' else '(++%s)') % x
+            if op == 'operator--': return ('(++%s)' if kind == 'reverse' else '(--%s)') % x
+            if op == 'operator->': return ('(%s - 1)' if kind == 'reverse' else '(%s)') % x
+            if op == 'operator*': return ('(*(%s - 1))' if kind == 'reverse' else '(*%s)') % x
         return None
+
+    def range_for(self, unit, n, ind):
+        ks = [c for c in n.get('inner', []) if c.get('kind')]
+        body = ks[-1]; loopvar = None; rng = None
+        for c in ks[:-1]:
+            if c['kind'] == 'DeclStmt':
+                for v in unit.kids(c):
+                    if v.get('kind') != 'VarDecl': continue
+                    if v.get('name', '').startswith('__range'): rng = v
+                    elif not v.get('name', '').startswith('__'): loopvar = v
+        if rng is None or loopvar is None: return False
+        rexpr = unit.strip_tmp(unit.kids(rng)[0])
+        cn = self._cn(unit, rexpr)
+        if cn is None: return False
+        p = '  ' * ind
+        unit.loop_no += 1; ln = unit.loop_no
+        r = unit.addr_of(rexpr)
+        unit.w(p + '{')
+        unit.w(p + '  struct %s *__r%d = %s; size_t __i%d = 0;' % (cn, ln, r, ln))
+        unit.ghost('before_loop:%d' % ln, p + '  ')
+        unit.w(p + '  for (; __i%d < __r%d->size; ++__i%d)' % (ln, ln, ln))
+        unit.loopc(ln, p + '  ')
+        txt, is_ref = unit.decl_text(loopvar, loopvar['name'])
+        unit.local_names[loopvar['id']] = (loopvar['name'], is_ref)
+        first = '%s = %s__r%d->data[__i%d];' % (txt, '&' if is_ref else '', ln, ln)
+        unit.loop_body(body, ind + 1, ln, first_stmt=first)
+        unit.ghost('after_loop:%d' % ln, p + '  ')
+        unit.w(p + '}')
+        return True
 
     def local_object(self, unit, v, ct, name, ks, p):
         cn = ct.replace('const ', '').strip()[len('struct '):]
@@ -199,4 +253,65 @@ class Syscalls(Plugin):
     def free_call(self, unit, name, rd, args, n):
         if name in self.NAMES:
             return 'v_sys_%s(%s)' % (name, ', '.join(unit.expr(a) for a in args))
+        return None
+
+
+class OpaqueString(Plugin):
+    """std::string where the unit only asks empty()/size()/c_str()/== : struct v_str { size_t size; int tag; } (contents abstract)"""
+    def is_str(self, node):
+        t = node.get('type', {})
+        for qt in (t.get('desugaredQualType'), t.get('qualType')):
+            if qt and re.match(r'^(const )?(std::)?(__cxx11::)?(basic_string<char.*>|string)( const)?\s*[&*]*$', canon_type(qt).strip()): return True
+        return False
+    def type_for(self, name, unit):
+        n = canon_type(name)
+        if n in ('std::string', 'std::basic_string<char>', 'string') or n.startswith('std::basic_string<char'): return 'struct v_str'
+        return None
+    def is_model_type(self, ct): return ct.replace('const ', '').strip() == 'struct v_str'
+    def member_call(self, unit, n, me, base, args):
+        if not self.is_str(base): return None
+        b = unit.expr(base); f = b if me.get('isArrow') else unit.addr_text(b)
+        nm = me['name']
+        if nm == 'empty': return '(%s->size == 0)' % f
+        if nm in ('size', 'length'): return '(%s->size)' % f
+        if nm in ('c_str', 'data'): return '((const char *)0)'
+        raise Unsupported('std::string::%s on the opaque string model (in %s)' % (nm, unit.cur))
+    def operator_call(self, unit, n, rd, args):
+        if len(args) == 2 and rd.get('name') in ('operator==', 'operator!=') and self.is_str(args[0]) and self.is_str(args[1]):
+            e = '(v_str_eq(%s, %s))' % (unit.addr_of(args[0]), unit.addr_of(args[1]))
+            return e if rd['name'] == 'operator==' else '(!%s)' % e
+        return None
+    def construct_expr(self, unit, n):
+        if not self.is_str(n): return None
+        ks = unit.kids(n)
+        if len(ks) == 1 and self.is_str(ks[0]): return '(*%s)' % unit.addr_of(ks[0])
+        return None
+    def field_init(self, unit, f, ct, target, e):
+        if e is None: return ['%s.size = 0; %s.tag = 0;' % (target, target)]
+        return ['%s = %s;' % (target, unit.expr(e))]
+    def local_object(self, unit, v, ct, name, ks, p):
+        unit.w(p + 'struct v_str %s;' % name)
+        if ks: unit.w(p + '%s = %s;' % (name, unit.expr(ks[0])))
+        else: unit.w(p + '%s.size = 0; %s.tag = 0;' % (name, name))
+
+
+class OpaqueJson(Plugin):
+    """nlohmann::json seen only through contains()/operator[]: opaque struct v_json, results are nondeterministic stubs"""
+    def is_json(self, node):
+        t = node.get('type', {})
+        for qt in (t.get('desugaredQualType'), t.get('qualType')):
+            if qt and ('nlohmann' in qt or re.match(r'^(const )?(tbox::)?Json\b', qt.strip())): return True
+        return False
+    def type_for(self, name, unit):
+        if 'nlohmann' in name or name in ('Json', 'tbox::Json'): return 'struct v_json'
+        return None
+    def is_model_type(self, ct): return ct.replace('const ', '').strip() == 'struct v_json'
+    def member_call(self, unit, n, me, base, args):
+        if not self.is_json(base): return None
+        b = unit.expr(base); f = b if me.get('isArrow') else unit.addr_text(b)
+        if me['name'] == 'contains': return 'v_json_contains(%s)' % f
+        raise Unsupported('Json::%s (in %s)' % (me['name'], unit.cur))
+    def operator_call(self, unit, n, rd, args):
+        if rd.get('name') == 'operator[]' and args and self.is_json(args[0]):
+            return '(*v_json_index(%s))' % unit.addr_of(args[0])
         return None
